@@ -110,10 +110,15 @@ def hostile(rng, ref_ok=False):
     return s
 
 
+Q1NAME = "q1"
+
+
 def build_form(rng):
     langs = rng.choice([[], [], ["en"], ["English (en)", "French (fr)"]])
     cells = {}
-    q1 = {"type": "text", "name": "q1"}
+    global Q1NAME
+    Q1NAME = "ex:q1" if rng.random() < 0.25 else "q1"         # a question in a declared namespace: its itext ids hold one more colon
+    q1 = {"type": "text", "name": Q1NAME}
 
     def put(row, col, key, ref_ok=True, translatable=True):
         if langs and translatable:
@@ -163,6 +168,8 @@ def build_form(rng):
         cells[("choice_extra", None)] = s
     ch_b = {"list_name": "l", "name": "b", "label": "B"} if not langs else {"list_name": "l", "name": "b", **{f"label::{l}": "B" for l in langs}}
     settings = {"form_id": "f1"}
+    if Q1NAME != "q1":
+        settings["namespaces"] = 'ex="http://example.com/x"'
     if rng.random() < 0.7:
         s = hostile(rng)
         settings["form_title"] = s
@@ -227,13 +234,13 @@ def recover(root, key, lang, langs):
     body = root.find(xf.H + "body")
     model = root.find(xf.H + "head").find(X + "model")
     dl = lang if lang is not None else "default"
-    ctrl = next((c for c in body.iter() if c.get("ref") == "/data/q1"), None)
-    bind = next((b for b in model.iter(X + "bind") if b.get("nodeset") == "/data/q1"), None)
+    ctrl = next((c for c in body.iter() if c.get("ref") == "/data/" + Q1NAME), None)
+    bind = next((b for b in model.iter(X + "bind") if b.get("nodeset") == "/data/" + Q1NAME), None)
     if key in ("label", "hint"):
         el = ctrl.find(X + key)
         return text_or_itext(root, el, lang, "default", key)
     if key == "guidance_hint":
-        v = itext_value(root, "/data/q1:hint", dl, "guidance")
+        v = itext_value(root, "/data/" + Q1NAME + ":hint", dl, "guidance")
         return rebuild(v) if v is not None else None
     if key in ("constraint_message", "required_message"):
         attr = "{http://openrosa.org/javarosa}" + ("constraintMsg" if key == "constraint_message" else "requiredMsg")
@@ -245,7 +252,7 @@ def recover(root, key, lang, langs):
         return ("attr", val)
     if key == "default":
         inst = model.find(X + "instance")
-        node = inst[0].find(X + "q1")
+        node = inst[0].find(X + "q1" if Q1NAME == "q1" else "{http://example.com/x}q1")
         return node.text or ""
     if key == "appearance":
         return ("attr", ctrl.get("appearance"))
@@ -253,7 +260,7 @@ def recover(root, key, lang, langs):
         return ("attr", bind.get("custom"))
     if key == "instance_custom":
         inst = model.find(X + "instance")
-        return ("attr", inst[0].find(X + "q1").get("extra"))
+        return ("attr", inst[0].find(X + "q1" if Q1NAME == "q1" else "{http://example.com/x}q1").get("extra"))
     if key == "group_label":
         grp = next((c for c in body.iter(X + "group") if c.get("ref") == "/data/g"), None)
         return text_or_itext(root, grp.find(X + "label"), lang, "default", "label")
